@@ -64,6 +64,11 @@ func panicKey(st string) string {
 // scanning until the stream is exhausted, then every aggregation level and
 // both HTML renderings of every snapshot returned.
 func pipeline(in []byte, optName string) (key, what string, snaps int) {
+	return pipelineHTML(in, optName, true)
+}
+
+// pipelineHTML is pipeline with the (expensive) HTML rendering optional.
+func pipelineHTML(in []byte, optName string, html bool) (key, what string, snaps int) {
 	lines := bytes.Count(in, []byte("\n")) + 1
 	res := resumeAll(in, optsByName(optName), nil, 0, false, lines+8)
 	if res.Panic != nil {
@@ -83,7 +88,7 @@ func pipeline(in []byte, optName string) (key, what string, snaps int) {
 		return "scans-superlinear", fmt.Sprintf("%d line scans for %d lines in %d calls", ev, lines, len(res.Calls)), 0
 	}
 	for _, s := range res.Snaps {
-		if k, w := renderAll(s); k != "" {
+		if k, w := renderSome(s, html); k != "" {
 			return k, w, len(res.Snaps)
 		}
 	}
@@ -333,6 +338,47 @@ func runC03(r *core.Run) {
 		}
 	})
 	c03Linear(r)
+	nativeFuzzResult(r)
+}
+
+var fuzzExecsRe = regexp.MustCompile(`execs: (\d+)`)
+var fuzzFailRe = regexp.MustCompile(`Failing input written to (\S+)`)
+
+// nativeFuzzResult folds the log of the go-test fuzzing run (thorough tier, started by ./check) into the verdict.
+func nativeFuzzResult(r *core.Run) {
+	b, err := os.ReadFile(filepath.Join(os.Getenv("VERIF_WORK"), "fuzz.log"))
+	if err != nil {
+		if !r.Quick() {
+			r.Broken("thorough tier: the native fuzzing log is missing")
+		}
+		return
+	}
+	log := string(b)
+	execs := 0
+	for _, m := range fuzzExecsRe.FindAllStringSubmatch(log, -1) {
+		if n, _ := strconv.Atoi(m[1]); n > execs {
+			execs = n
+		}
+	}
+	r.Set("native_fuzz_execs", execs)
+	r.Eval(execs)
+	if m := fuzzFailRe.FindStringSubmatch(log); m != nil {
+		src := filepath.Join(core.Root(), "harness", "cmd", "vcheck", m[1])
+		in, _ := os.ReadFile(src)
+		tail := log
+		if len(tail) > 3000 {
+			tail = tail[len(tail)-3000:]
+		}
+		r.Violation("native-fuzz", "go test -fuzz=FuzzPipeline found a failing input ("+src+"):\n"+tail, "fuzzcorpus", map[string]any{"corpus_file": src, "corpus": string(in)})
+		return
+	}
+	if !strings.Contains(log, "native fuzz exit=0") || execs == 0 {
+		tail := log
+		if len(tail) > 1500 {
+			tail = tail[len(tail)-1500:]
+		}
+		r.Broken("native fuzzing did not run to completion: " + tail)
+	}
 }
 
 func replayC03(r *core.Run, kind string, raw json.RawMessage) {
